@@ -1,4 +1,5 @@
 import GqlVerif.Props.C15
+import GqlVerif.Proofs.C15Ext
 open GqlVerif.C15
 #print axioms path_untagged
 #print axioms path_untagged_exact
@@ -19,3 +20,9 @@ open GqlVerif.C15
 #print axioms display_keeps_trailing_segments
 #print axioms querybody_members
 #print axioms envelope_shape_matches_source
+-- presence is information: empty containers are preserved; serialization is injective (Proofs/C15Ext.lean)
+#print axioms serError_injective
+#print axioms serResponse_injective
+#print axioms empty_error_extensions_preserved
+#print axioms empty_error_lists_preserved
+#print axioms empty_response_members_preserved
